@@ -9,6 +9,14 @@ Pair(item) == LET k == IndexOf(item, 61) IN
 NonEmpty(x) == x # <<>>
 ParseQ(q) == LET items == SelectSeq(Split(Ingest(q), 38), NonEmpty) IN [i \in 1..Len(items) |-> Pair(items[i])]
 
+(* the same under a parser option record: the library decodes through its own percent-decoder, which under the Latin-1 encoding override
+   turns an escaped byte into the UTF-8 of its Latin-1 code point (BasicParser!DecodeO) *)
+DecodeFormO(o, s) == Lossy(DecodeO(o, BytesOfT(PlusToSpace(s)), 1))
+PairO(o, item) == LET k == IndexOf(item, 61) IN
+                  IF k = 0 THEN <<DecodeFormO(o, item), <<>>>> ELSE <<DecodeFormO(o, SubSeq(item, 1, k - 1)), DecodeFormO(o, Drop(item, k))>>
+ParseQO(o, q) == IF ~o.latin1 THEN ParseQ(q)
+                 ELSE LET items == SelectSeq(Split(Ingest(q), 38), NonEmpty) IN [i \in 1..Len(items) |-> PairO(o, items[i])]
+
 (* the standard's serializer *)
 FormKeep(b) == IsAlnum(b) \/ b \in {42, 45, 46, 95}
 FormCp(c) == LET bs == Utf8(c) IN Flat([i \in 1..Len(bs) |-> IF bs[i] = 32 THEN <<43>> ELSE IF FormKeep(bs[i]) THEN <<bs[i]>> ELSE PctByte(bs[i])])
